@@ -100,10 +100,7 @@ def gen_case(rng, big=False, want_compound=None, risky=False):
     for u in order:
         cand_task = [t for t in seen_tps if ntasks(tps[t]) > 0]
         cand_cb = [t for t in seen_tps if tps[t]['cb']]
-        if u['kind'] == 'comp' and not risky:
-            # a compound added from inside an epoch can deadlock the wait (finding, replayed by a job of its own)
-            u['adder'] = ('master',)
-        elif cand_task and rng.chance(2, 5):
+        if cand_task and rng.chance(2, 5):
             t = rng.choice(cand_task)
             u['adder'] = ('task', t, rng.choice(task_ids(tps[t])))
         elif cand_cb and rng.chance(1, 4):
@@ -605,10 +602,11 @@ def run_common(ctx, res, prop, oracle, known_keys, want_compound, lines_override
     if lines_override is not None:
         jobs.append(('replay', lines_override, 2, 'lfq', 1))
     else:
-        plain = [c for f, c in corpus if 'inside-epoch' not in f]
+        plain = [c for f, c in corpus]
         if plain:
             jobs.append(('corpus', plain, 2, 'lfq', 0))
-            jobs.append(('corpus', plain, 4, 'ap', 1))
+            jobs.append(('corpus', plain, 4, 'ltq', 0))
+            jobs.append(('corpus', plain, 6, 'ap', 1))
         nproc = 10 if quick else 66
         ncase = 9 if quick else 24
         for j in range(nproc):
@@ -621,17 +619,11 @@ def run_common(ctx, res, prop, oracle, known_keys, want_compound, lines_override
                 cases.append(gen_case(r.fork(1000 + k), big=(k % 4 == 3) and want_compound is True,
                                       want_compound=(True if (want_compound is True and k % 5 != 4) else None)))
             jobs.append(('gen', cases, K, sched, keep))
-    # parsec_taskpool_wait before the first parsec_context_wait of a process crashes (finding): every process first runs an
-    # empty epoch; the finding itself is replayed in a process of its own
-    jobs = [(lab, [WARMUP] + list(cs), K, sched, keep) for (lab, cs, K, sched, keep) in jobs]
     if lines_override is None and prop == 'C06':
+        # parsec_taskpool_wait as the very first wait of a process (crashed before the repair of __parsec_taskpool_wait)
         jobs.append(('tpwait-first', [TPWAIT_FIRST], 1, 'lfq', 1))
-    if lines_override is None and prop == 'C15':
-        risky = [c for f, c in corpus if 'inside-epoch' in f]
-        r2 = rng.fork(777)
-        for j, (K, sched) in enumerate([(4, 'ltq'), (2, 'gd'), (6, 'll')] if quick else [(4, 'ltq'), (2, 'gd'), (6, 'll'), (3, 'lfq'), (2, 'spq'), (8, 'ap')]):
-            jobs.append(('inside-epoch', [WARMUP] + risky + [gen_case(r2.fork(j * 10 + k), want_compound=True, risky=True) for k in range(3)], K, sched, 0))
-    outs = run_parallel([(exe, [render(c) for c in cs], K, sched, keep, 300 if quick else 900, 8 if lab == 'inside-epoch' else 25) for (lab, cs, K, sched, keep) in jobs],
+        jobs.append(('tpwait-first', [TPWAIT_FIRST], 3, 'ap', 0))
+    outs = run_parallel([(exe, [render(c) for c in cs], K, sched, keep, 300 if quick else 900, 25) for (lab, cs, K, sched, keep) in jobs],
                         maxpar=5 if quick else 6)
     dist = {'histories': 0, 'events': 0, 'epochs': 0, 'threads': {}, 'schedulers': {}, 'taskpools': 0, 'compounds': 0,
             'compound_sizes': {}, 'adds_by_master': 0, 'adds_by_task': 0, 'adds_by_callback': 0, 'taskpool_waits': 0,
@@ -640,12 +632,11 @@ def run_common(ctx, res, prop, oracle, known_keys, want_compound, lines_override
     seen_v = set()
     for (label, cs, K, sched, keep), (rc, out, err) in zip(jobs, outs):
         tcs, stats, hviols = split_transcript(out)
-        if label == 'tpwait-first':
+        if label == 'tpwait-first' and rc != 0:
             res.evaluations += 1
-            if rc != 0:
-                res.violations.append({'key': KEY_TPWAIT_FIRST, 'what': 'parsec_init; add_taskpool; parsec_context_start; parsec_taskpool_wait(tp) with no earlier parsec_context_wait in the process: harness exit %d: %s' % (rc, err[-400:]),
-                                       'case': TPWAIT_FIRST, 'script': render(TPWAIT_FIRST), 'threads': K, 'sched': sched, 'keep': keep})
-                continue
+            res.violations.append({'key': KEY_TPWAIT_FIRST, 'what': 'parsec_init; add_taskpool; parsec_context_start; parsec_taskpool_wait(tp) with no earlier parsec_context_wait in the process: harness exit %d: %s' % (rc, err[-400:]),
+                                   'case': TPWAIT_FIRST, 'script': render(TPWAIT_FIRST), 'threads': K, 'sched': sched, 'keep': keep})
+            continue
         dist['stalls_hit'] += stats.get('stalls', 0)
         dist['tasks'] += stats.get('tasks', 0)
         dis_all = accept(tcs) if ctx.driver_ok else [[] for _ in tcs]
@@ -671,10 +662,6 @@ def run_common(ctx, res, prop, oracle, known_keys, want_compound, lines_override
             if i >= len(cs) or (hung and i == len(tcs) - 1):
                 break
             case = cs[i]
-            if i == 0 and case is WARMUP:
-                if not ended_quiescent(tc):
-                    res.violations.append({'key': 'warm-up epoch failed K=%d sched=%s' % (K, sched), 'what': str(tc['impl'][-3:]), 'case': case})
-                continue
             ev = events_of(tc)
             info = index_events(case, ev)
             v, dis = evaluate(case, tc, dis_all[i] if i < len(dis_all) else [], oracle)
